@@ -201,6 +201,52 @@ def run(ctx, rep):
     rep.ok("R13.5", "lock code never unlinks/renames", "%d bodies of FileLock examined" % n_lock_bodies, nontrivial=True) \
         if not any(o["rule"] == "R13.5" and o["status"] == "violation" for o in rep.obs) else None
 
+    # R13.6: whether an attempt is refused is decided by the kernel's lock and nothing else
+    rep.rule("R13.6", "the lock constructor refuses (returns Err) only when a system call failed (opening the LOCK file, flock): no Err return "
+                      "without the Err edge of a call behind it; and neither the constructor nor the lock's Drop keeps process-wide state "
+                      "(static / thread-local / OnceLock / atomic / global mutex) - a private registry of held locks decides differently from "
+                      "the kernel (e.g. an entry leaked by a refused attempt makes every later attempt fail although the owner is gone)")
+    gL = ctx.graph(L)
+    PL = ctx.product(L)
+
+    def step6(ms, pi, qi, learn):
+        for o, v in norm_learn(learn):
+            cn = origin_call(o)
+            if cn is not None and v in ("Err", "Break") and cn not in gL.callee_inst:
+                ms = True
+        return ms
+    seen6 = run_monitor(PL, False, step6)
+    bad6 = None
+    n_err6 = 0
+    for (pi, ms0, ms) in finals(PL, seen6, step6):
+        if PL.gnode(pi) in gL.exits and exit_is_err(PL, pi):
+            n_err6 += 1
+            if not ms:
+                bad6 = (pi, ms0)
+    if bad6:
+        rep.violation("R13.6", "lock|refusal-without-failed-syscall", "lock constructor Err return",
+                      "the lock constructor can refuse an attempt although no system call failed: the refusal comes from the program's own "
+                      "bookkeeping, which can disagree with the kernel's lock state (stale after a refused attempt, blind to other processes)",
+                      where=gL.where(PL.gnode(bad6[0])), path=describe_path(PL, [k[0] for k in path_to(seen6, bad6)]))
+    else:
+        rep.ok("R13.6", "lock constructor Err returns", "%d Err-exit state(s), each behind the Err edge of a call" % n_err6, where=gL.where(gL.entry))
+    rep.floor("R13.6", "Err exits of the lock constructor", n_err6, 1)
+    GLOBAL_RX = (r"thread::local::LocalKey|thread::LocalKey|sync::(once_lock::)?OnceLock|cell::(once::)?OnceCell|sync::(lazy_lock::)?LazyLock|"
+                 r"sync::atomic::Atomic\w*::|sync::(poison::)?(mutex::)?Mutex::<T>::(lock|try_lock)$|sync::(poison::)?(rwlock::)?RwLock::<T>::(read|write|try_read|try_write)$|sync::Once::")
+    n6 = 0
+    for kk in [L] + [b["key"] for b in ctx.facts.doc["bodies"] if re.search(r"file_lock::FileLock as std::ops::Drop>::drop$", b["key"])]:
+        gk = ctx.graph(kk)
+        for n in gk.nodes:
+            t = gk.term(n)
+            if t["k"] != "call" or n in gk.callee_inst or t.get("exp"):
+                continue
+            n6 += 1
+            if cmatch(t, GLOBAL_RX):
+                rep.violation("R13.6", "%s|process-wide-state:%s" % (short_key(kk).split("::")[-1], cpath(t).split("::")[-1]), cpath(t),
+                              "the directory lock's code consults / updates state shared by the whole process: ownership is then decided by "
+                              "that state and not by flock alone", where=gk.where(n))
+    rep.floor("R13.6", "call sites of the lock's constructor and Drop examined", n6, 6)
+
     # no Clone for FileLock, no try_clone, unlock only in Drop
     for im in ctx.facts.impls:
         if im["self_ty"].endswith("file_lock::FileLock") and im.get("trait", "").endswith("clone::Clone"):
